@@ -9,6 +9,7 @@ import RbV.Lemmas.FastxStream
 import RbV.Lemmas.Utf8Lines
 import RbV.Lemmas.UniWs
 import RbV.Lemmas.FastqPrefixUtf8
+import RbV.Lemmas.PlainText
 /-!
 # C11 — FASTA/FASTQ round trip is lossless and layout independent; truncated FASTQ is prefix safe
 
@@ -401,6 +402,40 @@ theorem fastq_prefix_checked_mem_any_buffering (c : Nat) (sched : Nat → Nat) (
       exact List.mem_append_left _ hy
     · simp at hx
 
+/-! ### Stated on the records
+
+`TextFa` / `TextFq`: id and description are valid UTF-8 (what `&str` gives) without the lead bytes of non-ASCII white
+space, sequence and qualities are ASCII — the records of the property text.  Then the written file is `PlainText`
+(`plainText_writeFasta`, `plainText_writeFastq`) and no hypothesis on the file is left. -/
+
+open RbV.BufLines in
+/-- **FASTA round trip**: for every list of valid text records, every wrap ≥ 1, every buffer capacity ≥ 1 and every
+admissible read schedule, the reader on the writer's output yields exactly the records. -/
+theorem fasta_roundtrip_records_any_buffering (c : Nat) (sched : Nat → Nat) (hc : 1 ≤ c) (hs : Admissible sched)
+    (wrap : Option Nat) (recs : List FaRec) (hv : ∀ r ∈ recs, ValidFa r) (ht : ∀ r ∈ recs, TextFa r)
+    (hw : ∀ w, wrap = some w → 1 ≤ w) :
+    parseFastaVia Txt.unicode c sched (writeFasta wrap recs) = recs.map fun r => .item (.ok r) :=
+  have hp := plainText_writeFasta wrap hw recs ht
+  fasta_roundtrip_any_buffering c sched hc hs wrap recs hv hw hp.1 hp.2
+
+open RbV.BufLines in
+/-- **FASTQ round trip**, likewise -/
+theorem fastq_roundtrip_records_any_buffering (c : Nat) (sched : Nat → Nat) (hc : 1 ≤ c) (hs : Admissible sched)
+    (recs : List FqRec) (hv : ∀ r ∈ recs, ValidFq r) (ht : ∀ r ∈ recs, TextFq r) :
+    parseFastqVia Txt.unicode c sched (writeFastq recs) = recs.map fun r => .item (.ok r) :=
+  have hp := plainText_writeFastq recs ht
+  fastq_roundtrip_any_buffering c sched hc hs recs hv hp.1 hp.2
+
+open RbV.BufLines in
+/-- **cut FASTQ stream**: every record that passes `check()` is an original record — every list of valid text
+records, every cut, every capacity, every schedule. -/
+theorem fastq_prefix_checked_mem_records_any_buffering (c : Nat) (sched : Nat → Nat) (hc : 1 ≤ c)
+    (hs : Admissible sched) (recs : List FqRec) (hv : ∀ r ∈ recs, ValidFq r) (ht : ∀ r ∈ recs, TextFq r) (n : Nat)
+    (r : FqRec) (hr : SItem.item (FqItem.ok r) ∈ parseFastqVia Txt.unicode c sched ((writeFastq recs).take n))
+    (hchk : r.check = true) : r ∈ recs :=
+  have hp := plainText_writeFastq recs ht
+  fastq_prefix_checked_mem_any_buffering c sched hc hs recs hv hp.1 hp.2 n r hr hchk
+
 /-! ## Non-vacuity -/
 
 private def exFa : List FaRec :=
@@ -454,5 +489,14 @@ example (r : FqRec) (hr : SItem.item (FqItem.ok r) ∈ parseFastqVia Txt.unicode
     (hc : r.check = true) : r ∈ exFqU :=
   fastq_prefix_checked_mem_any_buffering 2 _ (by decide) (fun _ => Nat.le_refl 1) exFqU (by decide) (by decide)
     (by decide) 2 r hr hc
+
+/-- `exFa` (wrap 2) and the non-ASCII `exFqU` are text records -/
+example : parseFastaVia Txt.unicode 1 (fun _ => 1) (writeFasta (some 2) exFa) = exFa.map fun r => .item (.ok r) :=
+  fasta_roundtrip_records_any_buffering 1 _ (by decide) (fun _ => Nat.le_refl 1) (some 2) exFa exFa_valid (by decide)
+    (by intro w h; cases h; decide)
+
+example : parseFastqVia Txt.unicode 5 (RbV.BufLines.cyclic [3, 1]) (writeFastq exFqU) =
+    exFqU.map fun r => .item (.ok r) :=
+  fastq_roundtrip_records_any_buffering 5 _ (by decide) (RbV.BufLines.cyclic_admissible _) exFqU (by decide) (by decide)
 
 end RbV.Thm.C11
